@@ -621,10 +621,25 @@ func init() {
 			}
 			if cur == nil {
 				u := &unstructured.Unstructured{Object: map[string]any{"apiVersion": "v1", "kind": k.Kind, "metadata": map[string]any{"name": k.Name, "namespace": k.Namespace}, "data": data}}
+				if st.S == "prelabel" {
+					// somebody labelled the object with the cache label's key but another value: the cache selects on "True"
+					u.SetLabels(map[string]string{constants.DynamicCacheLabel: []string{"true", "False", ""}[mod(st.J, 3)]})
+					r.Labels["c18-source-prelabelled-with-other-value"] = true
+				}
 				_ = c.Create(r.W.Ctx, u)
 				return
 			}
 			cur["data"] = data
+			if st.S == "prelabel" {
+				md := asMap(cur["metadata"])
+				l := asMap(md["labels"])
+				if l == nil {
+					l = map[string]any{}
+				}
+				l[constants.DynamicCacheLabel] = []string{"true", "False", ""}[mod(st.J, 3)]
+				md["labels"] = l
+				r.Labels["c18-source-prelabelled-with-other-value"] = true
+			}
 			if c.Update(r.W.Ctx, engine.U(cur)) == nil {
 				r.Labels["c18-source-edited"] = true
 			}
